@@ -13,5 +13,10 @@ for pid in sys.argv[1:]:
     s = (tmpl.replace("@WT@", wt).replace("@ID@", pid).replace("@TITLE@", p["title"])
          .replace("@STATEMENT@", p["statement"]).replace("@QUANT@", p["quantifier"]["text"])
          .replace("@FILES@", ", ".join(p["anchors"]["files"])))
+    if os.environ.get("SEED_AVOID"):
+        nd = json.load(open("/verif/seeded/needs.json"))
+        if pid in nd:
+            s += ("\nAn earlier, independent attempt already produced this kind of change, so do something DIFFERENT IN KIND "
+                  "(another mechanism, another part of the code involved, another clause of the statement): " + nd[pid].split(" [second-round")[0] + "\n")
     open(f"{root}/{pid}.prompt", "w").write(s)
     print(pid, wt)
